@@ -410,14 +410,14 @@ Section ReadJ.
       assert (HI : Inv (TNum x) s0) by (split; [reflexivity|exact Hf]).
       destruct (strip_fac_glue s0 (TNum x) (ENum x) (ENum x) HI (sr_num x)) as (t2 & s2 & acc & E2 & Hb & Hs & HI2).
       pose proof (strip_fac_head (glue (TNum x) s0) (ENum x)) as Hsf. rewrite E2 in H, Hsf. cbn [snd] in Hsf.
-      apply (finish f IHf (TNum x :: s0) bp _ t2 s2 e r' 1 acc); try assumption; [|exact I].
+      refine (finish f IHf (TNum x :: s0) bp _ t2 s2 e r' 2 acc _ Hs HI2 Hsf I H).
       cbn [rd]. rewrite Hb. reflexivity.
     - (* variable *)
       cbn [prefix_part bind] in H.
       assert (HI : Inv (TVar v) s0) by (split; [reflexivity|exact Hf]).
       destruct (strip_fac_glue s0 (TVar v) (EVar v) (EVar v) HI (sr_var v)) as (t2 & s2 & acc & E2 & Hb & Hs & HI2).
       pose proof (strip_fac_head (glue (TVar v) s0) (EVar v)) as Hsf. rewrite E2 in H, Hsf. cbn [snd] in Hsf.
-      apply (finish f IHf (TVar v :: s0) bp _ t2 s2 e r' 1 acc); try assumption; [|exact I].
+      refine (finish f IHf (TVar v :: s0) bp _ t2 s2 e r' 2 acc _ Hs HI2 Hsf I H).
       cbn [rd]. rewrite Hb. reflexivity.
     - (* an operator first: only a prefix minus *)
       cbn [prefix_part] in H. destruct (oper_eqb op OSub) eqn:Eo; [|discriminate].
@@ -468,30 +468,30 @@ Section ReadJ.
       destruct (parse_expr f (implied_mul s00) 0) as [[e1 r1]|e1|w1] eqn:E1; cbn [bind] in H; try discriminate.
       destruct r1 as [|t1 r2]; [discriminate|]. destruct t1; try discriminate.
       destruct (fragJ_cons _ _ Hf0) as (_ & Hf00).
-      destruct (IHf _ _ _ _ Hf00 ltac:(discriminate) E1) as (s1 & t1 & n & x & Hn & Hx & Er & HI1).
+      destruct (IHf s00 0 _ _ Hf00 ltac:(intro E5; discriminate E5) E1) as (s1 & t1 & n & x & Hn & Hx & Er & HI1).
       destruct (glue_rparen _ _ _ HI1 (eq_sym Er)) as (s2' & -> & -> & HI2').
       unfold level_ofJ in Hn. cbn in Hn. cbn [bind] in H.
       destruct (strip_fac_glue s2' TRParen (EFun fn e1) (EFun fn x) HI2' (sr_fun _ _ _ Hx)) as (t2 & s2 & acc & E2 & Hb & Hs & HI2).
       pose proof (strip_fac_head (glue TRParen s2') (EFun fn e1)) as Hsf. rewrite E2 in H, Hsf. cbn [snd] in Hsf.
-      apply (finish f IHf (TFun fn :: TLParen :: s00) bp _ t2 s2 e r' (S (S n)) acc); try assumption; [|exact I].
+      refine (finish f IHf (TFun fn :: TLParen :: s00) bp _ t2 s2 e r' (S (S n)) acc _ Hs HI2 Hsf I H).
       cbn [rd]. rewrite Hn, Hb. reflexivity.
     - (* constant *)
       cbn [prefix_part bind] in H.
       assert (HI : Inv (TConst c) s0) by (split; [reflexivity|exact Hf]).
       destruct (strip_fac_glue s0 (TConst c) (EConst c) (EConst c) HI (sr_const c)) as (t2 & s2 & acc & E2 & Hb & Hs & HI2).
       pose proof (strip_fac_head (glue (TConst c) s0) (EConst c)) as Hsf. rewrite E2 in H, Hsf. cbn [snd] in Hsf.
-      apply (finish f IHf (TConst c :: s0) bp _ t2 s2 e r' 1 acc); try assumption; [|exact I].
+      refine (finish f IHf (TConst c :: s0) bp _ t2 s2 e r' 2 acc _ Hs HI2 Hsf I H).
       cbn [rd]. rewrite Hb. reflexivity.
     - (* parenthesis *)
       cbn [prefix_part] in H. rewrite (glue_inert TLParen s0) in H by reflexivity.
       destruct (parse_expr f (implied_mul s0) 0) as [[e1 r1]|e1|w1] eqn:E1; cbn [bind] in H; try discriminate.
       destruct r1 as [|t1 r2]; [discriminate|]. destruct t1; try discriminate.
-      destruct (IHf _ _ _ _ Hf0 ltac:(discriminate) E1) as (s1 & t1 & n & x & Hn & Hx & Er & HI1).
+      destruct (IHf s0 0 _ _ Hf0 ltac:(intro E5; discriminate E5) E1) as (s1 & t1 & n & x & Hn & Hx & Er & HI1).
       destruct (glue_rparen _ _ _ HI1 (eq_sym Er)) as (s2' & -> & -> & HI2').
       unfold level_ofJ in Hn. cbn in Hn. cbn [bind] in H.
       destruct (strip_fac_glue s2' TRParen (set_paren e1) x HI2' (simr_set_paren _ _ Hx)) as (t2 & s2 & acc & E2 & Hb & Hs & HI2).
       pose proof (strip_fac_head (glue TRParen s2') (set_paren e1)) as Hsf. rewrite E2 in H, Hsf. cbn [snd] in Hsf.
-      apply (finish f IHf (TLParen :: s0) bp _ t2 s2 e r' (S (S n)) acc); try assumption; [|exact I].
+      refine (finish f IHf (TLParen :: s0) bp _ t2 s2 e r' (S (S n)) acc _ Hs HI2 Hsf I H).
       cbn [rd]. rewrite Hn, Hb. reflexivity.
     - (* a closing parenthesis first *)
       discriminate.
@@ -510,8 +510,74 @@ Section ReadJ.
     intros ts e Hf H. unfold parse_unfolded in H.
     destruct (parse_expr (S (length (implied_mul ts))) (implied_mul ts) 0) as [[e1 r]|e1|w] eqn:E; cbn [bind] in H; try discriminate.
     destruct r; [|discriminate]. injection H as <-.
-    destruct (simJ _ _ _ _ _ Hf ltac:(discriminate) E) as (s' & t & n & x & Hn & Hx & Er & HI).
+    destruct (simJ _ ts 0 _ _ Hf ltac:(intro E5; discriminate E5) E) as (s' & t & n & x & Hn & Hx & Er & HI).
     rewrite (glue_nil _ _ HI (eq_sym Er)) in Hn.
     exists x. split; [apply (ref_read_of_rd n); exact Hn|exact Hx].
   Qed.
 End ReadJ.
+
+(* ---- values (R instance): related trees have equal values ------------------------------------------------- *)
+From Coq Require Import Reals Lra.
+From SV Require Import Proofs.ExprFold.
+Local Open Scope R_scope.
+
+Lemma trunc_opp (q : R) : trunc (- q) = (- trunc q)%Z.
+Proof.
+  unfold trunc.
+  destruct (Rle_dec 0 q) as [Hq|Hq]; destruct (Rle_dec 0 (- q)) as [Hn|Hn].
+  - assert (q = 0) by lra. subst. rewrite Ropp_0. rewrite (Int_part_IZR 0). reflexivity.
+  - rewrite Ropp_involutive. reflexivity.
+  - lia.
+  - exfalso. lra.
+Qed.
+
+Lemma bin_val_opp o a b : prodo o -> bin_val o (- a) b = option_map Ropp (bin_val o a b).
+Proof.
+  intros [->|[->| ->]]; cbn [bin_val option_map].
+  - f_equal. ring.
+  - destruct (Req_EM_T b 0); [reflexivity|]. cbn. f_equal. field. assumption.
+  - unfold rem_val. destruct (Req_EM_T b 0); [reflexivity|]. cbn. f_equal.
+    replace (- a / b) with (- (a / b)) by (field; assumption).
+    rewrite trunc_opp, opp_IZR. ring.
+Qed.
+
+Lemma Push_denote (u w : expr R) : Push u w -> forall rho, denote w rho = option_map Ropp (denote u rho).
+Proof.
+  induction 1 as [u|o A B x p Ho HP IH]; intros rho; [reflexivity|].
+  cbn [denote]. rewrite IH. destruct (denote A rho) as [a|]; [|reflexivity]. cbn [option_map obind].
+  destruct (denote x rho) as [b|]; [|reflexivity]. cbn [obind]. apply bin_val_opp. exact Ho.
+Qed.
+
+Lemma simr_denote (e x : expr R) : simr e x -> forall rho, denote e rho = denote x rho.
+Proof.
+  induction 1 as [y|v|c|f i i' _ IH|o v v' _ IH|o v v' _ IH|o l l' r r' p p' _ IHl _ IHr|v u w _ IH HP];
+    intros rho; cbn [denote]; try reflexivity.
+  - rewrite IH. reflexivity.
+  - rewrite IH. reflexivity.
+  - rewrite IH. reflexivity.
+  - rewrite IHl, IHr. reflexivity.
+  - rewrite IH. symmetry. apply Push_denote. exact HP.
+Qed.
+
+(* on the fragment the unfolded tree of the parser denotes the conventional reading *)
+Lemma c19_parser_reads_lemma : forall (ts : list (token R)) (e : expr R),
+  fragJ ts = true -> parse_unfolded ts = Ok e ->
+  exists e', ref_read ts = Some e' /\ simr e e' /\ forall rho, denote e rho = denote e' rho.
+Proof.
+  intros ts e Hf H. destruct (parse_unfolded_readsJ ts e Hf H) as (x & Hr & Hx).
+  exists x. split; [exact Hr|]. split; [exact Hx|]. apply simr_denote. exact Hx.
+Qed.
+
+(* ... and so does the folded tree returned by [parser], wherever the reading has a value *)
+Lemma c19_parser_reads_folded_lemma : forall (ts : list (token R)) (e : expr R),
+  fragJ ts = true -> parser ts = Ok e ->
+  exists e', ref_read ts = Some e' /\ forall rho v, denote e' rho = Some v -> denote e rho = Some v.
+Proof.
+  intros ts e Hf H. unfold parser in H.
+  destruct (parse_unfolded ts) as [u|e0|w] eqn:E; cbn [bind] in H; try discriminate.
+  destruct (parse_unfolded_readsJ ts u Hf E) as (x & Hr & Hx).
+  exists x. split; [exact Hr|]. intros rho v Hv.
+  rewrite <- (simr_denote _ _ Hx) in Hv.
+  rewrite fold_operations_foldS in H. injection H as <-.
+  apply foldS_sound; assumption.
+Qed.
